@@ -30,7 +30,7 @@ open TfelVerif TfelVerif.Mandel TfelVerif.C23
 set_option linter.all false
 set_option maxHeartbeats 16000000
 set_option maxRecDepth 100000
-variable {K : Type} [Field K] (c c3 : K) (fn : Fns K)
+variable {K : Type} [Field K] [CharZero K] (c c3 : K) (fn : Fns K)
 
 /-- `DTAU_DF ← SPATIAL_MODULI` (3D): along every variation `δF = L F` the converted operator, applied to the
 rate of its kinematic variable, gives the rate of the Kirchhoff stress that reproduces the same Lie derivative of
@@ -154,9 +154,10 @@ theorem N3_DSIG_DF__DPK1_DF (hc : c * c = 2) (h2 : (2:K) ≠ 0)
     (D : Nat → Nat → K) (F0 F : M3 K) (L : M3 K) (s : Nat → K) (hJ : F.det ≠ 0) :
     lower (lamSig F (M3.ofMandel c [s 0, s 1, s 2, s 3, s 4, s 5]) L (M3.ofMandel c (act (Gen.N3_DSIG_DF__DPK1_DF_r c c3 fn D (tensv F0) (tensv F) s) (M3.tens3 (L * F)))))
       = lower (lamP F (M3.ofMandel c [s 0, s 1, s 2, s 3, s 4, s 5]) L (M3.ofTens (act (rowsOf D i9 i9) (M3.tens3 (L * F))))) := by
-  have hc0 : c ≠ 0 := c_ne_zero hc h2
   unfold Gen.N3_DSIG_DF__DPK1_DF_r
+  rw [lower_eq_upper (lamSig_symm _ _ (ofMandel_symm c _) (ofMandel_symm c _))]
   refine (PropsN3_DSIG_DF__DTAU_DF.N3_DSIG_DF__DTAU_DF c c3 fn hc h2 (hJ := hJ) ..).trans ?_
+  rw [← lower_eq_upper (lamTau_symm _ _ (ofMandel_symm c _) (ofMandel_symm c _))]
   exact PropsN3_DTAU_DF__DPK1_DF.N3_DTAU_DF__DPK1_DF c c3 fn hc h2 ..
 
 /-- `DTAU_DF ← DS_DF` (3D): along every variation `δF = L F` the converted operator, applied to the
